@@ -117,7 +117,15 @@ class C18(Prop):
 
     def cases(self, rng, tier):
         n = 40 if tier == "quick" else 500
-        return [self._case(rng, root) for root in A.ROOT_NAMES for _ in range(n)]
+        out = [self._case(rng, root) for root in A.ROOT_NAMES for _ in range(n)]
+        # history: the same (unchanged) file was loaded before in this process under another audio directory (or none)
+        for root in A.ROOT_NAMES:
+            for _ in range(max(4, n // 5)):
+                c = self._case(rng, root)
+                other = self._case(rng, root)
+                c["B_before"] = [other["B"], other["B_form"]]
+                out.append(c)
+        return out
 
     @staticmethod
     def _form(d, form):
@@ -145,6 +153,8 @@ class C18(Prop):
         if st == "ok":
             doc = json.loads(p.read_text())
             o["stored"] = {r["uuid"]: r["path"] for r in doc["data"].get("recordings") or []}
+            if case.get("B_before"):
+                guarded(io.load, p, audio_dir=self._form(*case["B_before"]))
             st2, back = guarded(io.load, p, audio_dir=self._form(case["B"], case["B_form"]))
             o["load"] = st2
             if st2 == "ok":
